@@ -573,7 +573,7 @@ type c09Config struct {
 
 func runC09(c *Ctx) {
 	r := c.R
-	r.SetRule("requests generated from a grammar of the routed surface: 16 methods x bucket/object/hostile paths x 0-6 query parameters out of 28 sub-resource and paging names with values from hostile classes (empty, negative, 2^31/2^63/2^64 neighbourhood, non-numeric, NUL, invalid UTF-8, overlong, existing and garbage upload/version ids, malformed tokens) x up to 3 headers out of 14 kinds (Range, Content-MD5, copy source, streaming sha256, decoded length, conditionals, dates, force-delete, CORS, multipart form, metadata, declared length variants) x 31 bodies (valid/mutated XML for complete/delete/versioning, entity bombs, binary), against stores with objects, versions, delete markers, a version-deleted current and pending uploads with gaps; all six backends plus option variants (host-bucket, auto-bucket, no-versioning, unimplemented-page error, integrity off); every response is judged (no panic, status 200-599, error body is an S3 <Error> document whose code fits the status) and a canary script of correct requests on the fuzzed buckets and an untouched bucket runs after every 50 requests; distinct = (config, method, route class, parameter-name set, status, error code)")
+	r.SetRule("requests generated from a grammar of the routed surface: 16 methods x bucket/object/hostile paths x 0-6 query parameters out of 28 sub-resource and paging names with values from hostile classes (empty, negative, 2^31/2^63/2^64 neighbourhood, non-numeric, NUL, invalid UTF-8, overlong, existing and garbage upload/version ids, malformed tokens) x up to 3 headers out of 14 kinds (Range, Content-MD5, copy source, streaming sha256, decoded length, conditionals, dates, force-delete, CORS, multipart form, metadata, declared length variants) x 31 bodies (valid/mutated XML for complete/delete/versioning, entity bombs, binary), against stores with objects, versions, delete markers, a version-deleted current and pending uploads with gaps; all six backends plus option variants (host-bucket, auto-bucket, no-versioning, unimplemented-page error, integrity off); every response is judged (no panic, status 200-599, error body is an S3 <Error> document whose code fits the status) and a canary script of correct requests on the fuzzed buckets and an untouched bucket runs after every 50 requests; then rounds in which 8 clients fire such requests at one server concurrently (every response judged, hang watchdog on every in-flight request, canary after each round); distinct = (config, method, route class, parameter-name set, status, error code)")
 	perCfg := r.Pick(40000, 1000000)
 	var cfgs []c09Config
 	for _, k := range drv.AllKinds {
@@ -714,6 +714,7 @@ func runC09(c *Ctx) {
 		}
 	})
 	close(stop)
+	c09Concurrent(r, cfgs[:len(drv.AllKinds)+2])
 	if r.Thorough() {
 		c09NativeFuzz(r)
 	}
@@ -727,6 +728,110 @@ func runC09(c *Ctx) {
 	r.Assume("which 4xx/5xx a hostile request gets is not judged as long as it is a well-formed S3 error document consistent with its status (MethodNotAllowed is sent with 400, recorded not judged); an error status may have an empty body",
 		"'never blocks indefinitely' is bounded progress: a request in flight for 90 s is examined by goroutine state (parked on a lock/channel in two dumps, or CPU-bound) - the deadline alone decides nothing",
 		"requests run in-process through the real handler chain; transport-level malformations that net/http itself rejects are out of reach")
+}
+
+
+// c09Concurrent: the same grammar, but eight clients fire their requests at one
+// server at the same time. "Never blocks indefinitely" and "still answers
+// correct requests afterwards" must also hold when the hostile request meets
+// other requests half-way (a handler that takes a lock twice, or leaves one
+// held on an error path, only wedges when a second request arrives in between).
+func c09Concurrent(r *rep.Reporter, cfgs []c09Config) {
+	const clients = 8
+	rounds := r.Pick(6, 120)
+	per := r.Pick(400, 1500)
+	type job struct {
+		cfg   c09Config
+		round int
+	}
+	var jobs []job
+	for _, c := range cfgs {
+		for i := 0; i < rounds; i++ {
+			jobs = append(jobs, job{c, i})
+		}
+	}
+	workers := 2 // two servers at a time, eight clients each
+	slots := make([]*inflight, workers*clients)
+	for i := range slots {
+		slots[i] = &inflight{}
+	}
+	stop := make(chan struct{})
+	go watchHangs(r, slots, stop, 90*time.Second)
+	rep.Parallel(len(jobs), workers, func(w, ji int) {
+		j := jobs[ji]
+		buckets := []string{"fz-one", "fz-two"}
+		if drv.IsSingle(j.cfg.kind) {
+			buckets = []string{drv.SingleName}
+		}
+		s := mustServer(j.cfg.opts)
+		defer func() { go s.Close() }()
+		var st *c09State
+		if j.cfg.opts.HostBucket {
+			st = c09SetupHost(s, j.cfg.kind, buckets)
+		} else {
+			st = c09Setup(s, j.cfg.kind, buckets)
+		}
+		var wg sync.WaitGroup
+		var panicked atomic.Bool
+		last := make([][]*drv.Req, clients)
+		for g := 0; g < clients; g++ {
+			wg.Add(1)
+			go func(g int) {
+				defer wg.Done()
+				rng := gen.Rng(r.Seed, "C09-conc-"+j.cfg.name, j.round*clients+g)
+				sl := slots[w*clients+g]
+				for i := 0; i < per && !panicked.Load(); i++ {
+					q := c09Request(rng, append(buckets, "nobucket"), st)
+					if j.cfg.opts.HostBucket {
+						q.Host = gen.Pick(rng, []string{"fz-one.s3.example.test", "fz-two.localhost", "nobucket.x", "fz-one"})
+					}
+					desc := fmt.Sprintf("%s %q ?%s host=%q hdr=%v bodylen=%d", q.Method, clip(q.Path, 200), clip(q.Query, 300), q.Host, clipHeader(q.Header), len(q.Body))
+					sl.desc.Store(j.cfg.name + " (8 concurrent clients): " + desc)
+					sl.since.Store(time.Now().UnixNano())
+					resp := s.Do(q)
+					sl.since.Store(0)
+					r.Eval(1)
+					r.Count("concurrent_requests", 1)
+					last[g] = append(last[g], q)
+					if len(last[g]) > 8 {
+						last[g] = last[g][1:]
+					}
+					if a, what := judgeResponse(q.Method, resp); a != "" {
+						trig := q.Method + " " + routeOf(q)
+						if a == "panic" {
+							trig = panicSite(resp.Stack)
+							panicked.Store(true)
+						}
+						r.Violation(sig("C09", backendClass(j.cfg.kind), a, "concurrent,"+trig), fmt.Sprintf("%s with 8 concurrent clients: %s: %s", j.cfg.name, desc, what),
+							map[string]interface{}{"configuration": j.cfg.name, "request": reqDesc(q), "response": respDesc(resp)})
+					}
+				}
+			}(g)
+		}
+		wg.Wait()
+		r.Distinct(fmt.Sprintf("%s|concurrent-round|%d", j.cfg.name, j.round))
+		if panicked.Load() {
+			return // locks may be left held by the recovered panic; the panic itself is the finding
+		}
+		sl := slots[w*clients]
+		sl.desc.Store(j.cfg.name + ": canary after a concurrent round")
+		sl.since.Store(time.Now().UnixNano())
+		bad := canary(s, j.cfg.kind, buckets, j.cfg.opts.HostBucket, j.round)
+		sl.since.Store(0)
+		r.Count("canary_runs_after_concurrent_rounds", 1)
+		if bad != "" {
+			var wd []interface{}
+			for _, l := range last {
+				for _, q := range l {
+					wd = append(wd, reqDesc(q))
+				}
+			}
+			r.Violation(sig("C09", backendClass(j.cfg.kind), "canary-failed", "concurrent"), fmt.Sprintf("%s: after a round of 8 concurrent hostile clients a correct request fails: %s", j.cfg.name, bad),
+				map[string]interface{}{"configuration": j.cfg.name, "canary": bad, "last_requests_of_each_client": wd})
+		}
+	})
+	close(stop)
+	r.Require("concurrent_requests", 10000)
 }
 
 func clipHeader(h http.Header) map[string]string {
